@@ -185,12 +185,21 @@ def _run_all(ctx, work, jobs, tier, cases):
     return [results[item[1]] for item in work]
 
 
+def _replay_env(pid):
+    """extra environment for concrete replays / samples of a property (harness attribute REPLAY_ENV)"""
+    try:
+        return dict(getattr(load_harness(pid), 'REPLAY_ENV', {}))
+    except Exception:
+        return {}
+
+
 def replay_case(pid, case_name, values, tier, seed, timeout=600):
     """run one concrete case in a fresh interpreter against the real library -> (status, failures)"""
     req = dict(property=pid, case=case_name, values=values, tier=tier, seed=seed)
     p = subprocess.run([sys.executable, '-m', 'vt.replay', '--json', json.dumps(req)], cwd=ROOT,
                        capture_output=True, text=True, timeout=timeout,
-                       env=dict(os.environ, PYTHONPATH=ROOT + os.pathsep + REPO, NUMBA_DISABLE_PERFORMANCE_WARNINGS='1'))
+                       env=dict(os.environ, PYTHONPATH=ROOT + os.pathsep + REPO, NUMBA_DISABLE_PERFORMANCE_WARNINGS='1',
+                                **_replay_env(pid)))
     last = None
     for line in p.stdout.splitlines():
         if line.startswith('REPLAY-RESULT '):
@@ -332,7 +341,7 @@ def main(argv=None):
             p = subprocess.run([sys.executable, '-m', 'vt.replay', '--sample', pid, tier, str(seed), str(n_samples)] +
                                ([a.only] if a.only else []), cwd=ROOT, capture_output=True, text=True, timeout=3600,
                                env=dict(os.environ, PYTHONPATH=ROOT + os.pathsep + REPO,
-                                        NUMBA_DISABLE_PERFORMANCE_WARNINGS='1'))
+                                        NUMBA_DISABLE_PERFORMANCE_WARNINGS='1', **_replay_env(pid)))
             recs = None
             for line in p.stdout.splitlines():
                 if line.startswith('SAMPLE-RESULT '):
